@@ -109,7 +109,7 @@ def register_builders(reg, S):
                 ("no-must-raise-so-far", f"forall(0, _it, lambda k: not ({must}))".replace(be, "bpm_events")),
             ])},
             locals={"events": SeqS(S[ename])},
-            props=["C01", "C11", "C12", "C15"] + {"TimeSignatureEvent": ["C08"], "StarPowerEvent": ["C07"], "TrackEvent": ["C07"],
+            props=["C01", "C11", "C12", "C15"] + {"TimeSignatureEvent": ["C08"], "StarPowerEvent": ["C07", "C05"], "TrackEvent": ["C07"],
                                                   "TextEvent": ["C09"], "SectionEvent": ["C09"], "LyricEvent": ["C09"]}.get(label, [])))
 
 
